@@ -1,4 +1,5 @@
 import Mkdb.Props.C11
+import Mkdb.Proofs.Forest
 /-!
 # C01 — table contents always equal what the statement history implies
 
@@ -150,6 +151,23 @@ theorem C01_no_resurrection (s : Levels × Nat) (hinv : Inv s.1 s.2) (k : Nat)
         split <;> simpa using hc0k
     have := ih (applyOp s op) (applyOp_inv s op hinv) h' hk'
     simpa [runOps] using this
+
+/-- **C01.forest_isolated**: with several tables (and the catalog) sharing one file and one allocation
+frontier, an operation on one tree leaves the cells of every other tree exactly as they were - no
+row leaks into another table. -/
+theorem C01_forest_isolated (f : Forest) (op : FOp) (j : Nat) (hj : j ≠ target op) :
+    (f.step op).trees[j]?.map cells = f.trees[j]?.map cells := Forest.step_cells_other f op j hj
+
+/-- **C01.forest_target**: …and changes the target tree's cells exactly as the plain model says. -/
+theorem C01_forest_target (f : Forest) (op : FOp) (t : Levels) (ht : f.trees[target op]? = some t) :
+    ∃ t', (f.step op).trees[target op]? = some t' ∧ cells t' = cellsAfter f.nextFree t op :=
+  Forest.step_cells f op t ht
+
+/-- **C01.forest_no_page_shared**: after any history over any number of trees, every tree is well formed
+below the shared frontier and no page belongs to two trees - "however the rows happen to be laid out
+over pages". -/
+theorem C01_forest_no_page_shared (f : Forest) (ops : List FOp) (hf : f.Inv) : (f.run ops).Inv :=
+  Forest.run_inv f ops hf
 
 /-- non-vacuity: insert 12 rows (one leaf split and a root), delete row 3, change row 5, insert one more -/
 example :
